@@ -42,7 +42,7 @@ def target_plan(ns, base, tier):
     ts = [T.PyTarget(ns, base / "py", None),
           T.CTarget(ns, base / "c_any", "any", False),
           T.CTarget(ns, base / "c_little_asserts", "little", True),
-          T.CppTarget(ns, base / "cpp14", "c++14"),
+          T.CppTarget(ns, base / "cpp14_asserts", "c++14", asserts=True),
           T.CppTarget(ns, base / "cpp17", "c++17"),
           T.CppTarget(ns, base / "cpp17pmr", "c++17-pmr"),
           T.CppTarget(ns, base / "cpp20", "c++20")]
@@ -51,7 +51,7 @@ def target_plan(ns, base, tier):
                T.CTarget(ns, base / "c_little", "little", False),
                T.CTarget(ns, base / "c_any_clang", "any", False, cc="clang", cflags=("-O0",)),   # clang -O1 needs minutes on the big shim
                T.CTarget(ns, base / "c_ovr", "any", False, extra_nnvg=["--enable-override-variable-array-capacity"], tag="c/any+override-capacity"),
-               T.CppTarget(ns, base / "cpp14_asserts", "c++14", asserts=True),
+               T.CppTarget(ns, base / "cpp14", "c++14"),
                T.CppTarget(ns, base / "cpp17_clang", "c++17", cxx="clang++", cxxflags=("-O0",))]
     # big-endian output cannot run on this host: generated and compiled only
     ts.append(T.CTarget(ns, base / "c_big", "big", False, run=False))
@@ -136,7 +136,7 @@ def get_session(ctx):
     key = (ctx.seed, ctx.tier, str(common.REPO))
     if key not in _SESSIONS:
         ns_seed = random.Random(ctx.seed).getrandbits(64)
-        n_types = 40 if ctx.quick else 220
+        n_types = 40 if ctx.quick else 500
         _SESSIONS[key] = Session(ctx.seed, ctx.tier, n_types, ns_seed)
     return _SESSIONS[key]
 
